@@ -80,6 +80,10 @@ func main() {
 				code = checkC05(p)
 			case "C13":
 				code = checkC13(p)
+			case "C11":
+				code = checkTasks(p, "readers", "B-tasks/readers")
+			case "C07":
+				code = checkTasks(p, "pipeline", "B-tasks/pipeline")
 			default:
 				fail("no check for property %s", prop)
 			}
